@@ -752,9 +752,17 @@ class Interp:
         exit       : execution continues from an arbitrary state satisfying invariant and not guard."""
         ctx = self.ctx
         tag = "%s#%d" % (fr.fd.qualname, self._loop_ordinal(node, fr))
-        ctx.side_obligations.append(("loop-init:" + tag, truth_val(spec.inv(self, fr)), list(ctx.pc)))
+
+        def parts(v):
+            """an invariant may be given as {name: conjunct}: each conjunct becomes its own obligation"""
+            if isinstance(v, dict):
+                return [(":" + k, truth_val(c)) for k, c in v.items()]
+            return [("", truth_val(v))]
+        for nm, c in parts(spec.inv(self, fr)):
+            ctx.side_obligations.append(("loop-init:" + tag + nm, c, list(ctx.pc)))
         spec.havoc(self, fr)
-        ctx.assume(truth_val(spec.inv(self, fr)))
+        for nm, c in parts(spec.inv(self, fr)):
+            ctx.assume(c)
         if truth(self.eval(node.test, fr)):
             v0 = spec.variant(self, fr) if spec.variant else None
             try:
@@ -763,7 +771,8 @@ class Interp:
                 pass
             except BreakEx:
                 return
-            ctx.side_obligations.append(("loop-step:" + tag, truth_val(spec.inv(self, fr)), list(ctx.pc)))
+            for nm, c in parts(spec.inv(self, fr)):
+                ctx.side_obligations.append(("loop-step:" + tag + nm, c, list(ctx.pc)))
             if v0 is not None:
                 v1 = spec.variant(self, fr)
                 ctx.side_obligations.append(("loop-variant:" + tag,
